@@ -60,6 +60,16 @@ class PurgeAppTask(BaseEvolutionTask):
             self.evolution_required = True
             self.sql = app_mutator.to_sql()
 
+            # The app is no longer installed, so once its models are gone,
+            # nothing of it should remain in the signature. Otherwise, the
+            # stale (empty) entry keeps showing up as a deleted application
+            # that still needs to be purged.
+            project_sig = evolver.project_sig
+            app_sig = project_sig.get_app_sig(self.app_label)
+
+            if app_sig is not None and app_sig.is_empty():
+                project_sig.remove_app_sig(app_sig.app_id)
+
         self.can_simulate = True
         self.new_evolutions = []
 
